@@ -291,7 +291,8 @@ Lemma pos_correct_sink pc vaf rest :
   low_index_mults_any = false -> pos_correct pc vaf rest = ROk (sink_index pc).
 Proof.
   intros H. unfold pos_correct, sink_index. unfold low_index_mults_any in H. cbv zeta.
-  rewrite <- andb_assoc, H, andb_false_r. cbn [andb]. reflexivity.
+  destruct (pc + 1 =? positional_count c); cbn [andb]; [rewrite H|]; cbn [andb];
+    destruct (is_set s_allow_missing_pos c || existsb a_last (c_args c)); reflexivity.
 Qed.
 
 Lemma sink_arg_spec pc a : sink_arg pc = Some a ->
@@ -353,6 +354,29 @@ Proof.
     repeat split; assumption.
 Qed.
 
+Lemma truns_snoc_inv : forall pre suffix t ls st ls' st',
+  truns suffix (pre ++ [t]) ls st ls' st' ->
+  exists lsm stm, truns (t :: suffix) pre ls st lsm stm /\ tstep t suffix lsm stm ls' st'.
+Proof.
+  induction pre as [|x pre IH]; intros suffix t ls st ls' st' Hr.
+  - cbn [app] in Hr. inversion Hr as [|? ? ? ? ls1 st1 ? ? Hst Hrest]; subst. inversion Hrest; subst.
+    exists ls, st. split; [constructor|exact Hst].
+  - cbn [app] in Hr. inversion Hr as [|? ? ? ? ls1 st1 ? ? Hst Hrest]; subst.
+    destruct (IH _ _ _ _ _ _ Hrest) as (lsm & stm & Hr' & Hst').
+    exists lsm, stm. split; [|exact Hst'].
+    econstructor; [|exact Hr']. rewrite <- app_assoc in Hst. exact Hst.
+Qed.
+
+Lemma truns_sink : forall pre suffix ls st ls' st' a,
+  sink_arg (l_pos ls) = Some a -> truns suffix pre ls st ls' st' -> sink_arg (l_pos ls') = Some a.
+Proof.
+  induction pre as [|x pre IH]; intros suffix ls st ls' st' a Hs Hr;
+    inversion Hr as [|? ? ? ? ls1 st1 ? ? Hst Hrest]; subst; [exact Hs|].
+  eapply IH; [|exact Hrest].
+  destruct (tstep_sink _ _ _ _ _ _ _ Hs Hst) as (? & ? & _ & Hp & _). rewrite Hp.
+  apply sink_arg_stable. exact Hs.
+Qed.
+
 (** T2: every token after the escape reaches the pending occurrence of the sink positional,
     byte for byte and in order; nothing else in the matcher changes *)
 Theorem tail_verbatim : forall tail suffix tok ls st ls' st' a,
@@ -370,26 +394,9 @@ Proof.
     destruct (tstep_sink _ _ _ _ _ _ _ Hs Hst) as (st0 & p & H1 & _ & H2 & H3 & H4 & H5 & H6 & H7 & H8).
     exists st0, p. repeat split; assumption.
   - (* split the run: all but the last token, then one step *)
-    assert (Hsplit : exists lsm stm, truns (t2 :: suffix) (tok :: tail) ls st lsm stm /\
-                                     tstep t2 suffix lsm stm ls' st' /\
-                                     sink_arg (l_pos lsm) = Some a).
-    { clear IH. revert tok ls st Hs Hr.
-      induction tail as [|t3 tail IHt]; intros tok ls st Hs Hr.
-      - cbn in Hr. inversion Hr as [|? ? ? ? ls1 st1 ? ? Hst Hrest]; subst.
-        inversion Hrest as [|? ? ? ? ls2 st2 ? ? Hst2 Hrest2]; subst. inversion Hrest2; subst.
-        exists ls1, st1. split; [|split].
-        + econstructor; [exact Hst|constructor].
-        + exact Hst2.
-        + destruct (tstep_sink _ _ _ _ _ _ _ Hs Hst) as (? & ? & _ & Hp & _). rewrite Hp.
-          apply sink_arg_stable. exact Hs.
-      - cbn in Hr. inversion Hr as [|? ? ? ? ls1 st1 ? ? Hst Hrest]; subst.
-        assert (Hs1 : sink_arg (l_pos ls1) = Some a).
-        { destruct (tstep_sink _ _ _ _ _ _ _ Hs Hst) as (? & ? & _ & Hp & _). rewrite Hp.
-          apply sink_arg_stable. exact Hs. }
-        destruct (IHt t3 ls1 st1 Hs1 Hrest) as (lsm & stm & Hr' & Hst' & Hsm).
-        exists lsm, stm. split; [|split; assumption].
-        econstructor; [|exact Hr']. rewrite <- app_assoc in Hst. exact Hst. }
-    destruct Hsplit as (lsm & stm & Hr1 & Hst & Hsm).
+    rewrite app_comm_cons in Hr.
+    destruct (truns_snoc_inv _ _ _ _ _ _ _ Hr) as (lsm & stm & Hr1 & Hst).
+    pose proof (truns_sink _ _ _ _ _ _ _ Hs Hr1) as Hsm.
     destruct (IH _ _ _ _ _ _ _ Hs Hr1) as (st0 & p & H1 & H2 & H3 & H4 & H5 & H6 & H7 & H8).
     destruct (tstep_sink _ _ _ _ _ _ _ Hsm Hst) as (stf & p' & F1 & _ & F2 & F3 & F4 & F5 & F6 & F7 & F8).
     (* no flush in the last step: the pending occurrence already belongs to [a] *)
